@@ -66,6 +66,9 @@ func createCmd(globalCfg *globalConfig, cfg *createConfig) error {
 		if err != nil {
 			return fmt.Errorf("failed to create big index writer: %w", err)
 		}
+		// without this, tempDB.Close() above never returns when we bail out
+		// before Flush, e.g. on a malformed input file.
+		defer idx.Close()
 
 		iw = idx
 	} else {
